@@ -4,7 +4,7 @@
 //! short strings.
 
 use crate::common::*;
-use crate::vsh::{self, Setup};
+use crate::vsh::{self, End, Setup};
 use rayon::prelude::*;
 use serde_json::json;
 use std::collections::{BTreeMap, HashMap};
@@ -515,6 +515,46 @@ pub fn run(tier: Tier) -> i32 {
         }
     }
 
+    // assignment operators update the variable the shell would assign to, wherever the expansion
+    // is evaluated: every assignment form x every context (top level, function on a global,
+    // function on its own local, function on the caller's local, subshell, loop, read-only)
+    let mut ctx_n = 0u64;
+    {
+        let forms: [(&str, i64); 8] = [("x=7", 7), ("x+=2", 7), ("x-=2", 3), ("x*=3", 15), ("x<<=1", 10), ("x++", 6), ("--x", 4), ("x|=2", 7)];
+        for (form, newval) in forms {
+            let e = format!(": $(({form}))");
+            let cases: Vec<(String, String)> = vec![
+                (format!("x=5; {e}; args $x"), format!("args[{newval}]")),
+                (format!("x=5; f() {{ {e}; }}; f; args $x"), format!("args[{newval}]")),
+                (format!("x=5; f() {{ {e}; {e}; }}; f; f; args $x"), String::new()),
+                (format!("x=5; f() {{ typeset x=5; {e}; args $x; }}; f; args $x"), format!("args[{newval}]|args[5]")),
+                (format!("g() {{ typeset x=5; f; args $x; }}; f() {{ {e}; }}; x=1; g; args $x"), format!("args[{newval}]|args[1]")),
+                (format!("x=5; ({e}; args $x); args $x"), format!("args[{newval}]|args[5]")),
+                (format!("x=5; for i in 1; do {e}; done; args $x"), format!("args[{newval}]")),
+                (format!("x=5; f() {{ y=$(({form})); }}; f; args $x $y"), String::new()),
+                (format!("x=5; readonly x; f() {{ {e}; p after; }}; f; p after2"), "READONLY".into()),
+                (format!("x=5; readonly x; {e}; p after"), "READONLY".into()),
+            ];
+            for (script, want) in cases {
+                let r = vsh::run_once(&Setup::script(&script), &Default::default());
+                ctx_n += 1;
+                let got = r.all_trace().join("|");
+                let bad = if want == "READONLY" {
+                    // a read-only variable is never modified: expansion error, nothing after it runs
+                    (!got.is_empty() || matches!(r.end, End::Exited(0)) || r.stderr.is_empty()).then(|| format!("assignment to a read-only variable: markers {got:?}, end {:?}", r.end))
+                } else if want.is_empty() {
+                    // (value depends on applying the form several times: only "no panic, no error")
+                    (r.panic.is_some() || !r.stderr.is_empty()).then(|| format!("stderr {:?} panic {:?}", r.stderr, r.panic))
+                } else {
+                    (got != want).then(|| format!("got {got}, expected {want}; stderr={:?}", r.stderr))
+                };
+                if let Some(b) = bad {
+                    ctx.violation("c03:assignment-context", &format!("{script}: {b}"), json!({"script": script}));
+                }
+            }
+        }
+    }
+
     // totality: all strings up to length 4 over a token alphabet
     let alphabet: Vec<char> = "019xa_+-*/%<>=!&|^~?:() €é".chars().collect();
     let maxlen = 4usize;
@@ -547,11 +587,11 @@ pub fn run(tier: Tier) -> i32 {
         }
         cur = next;
     }
-    let evals = counters.evals.load(Relaxed) + spell_n + total;
+    let evals = counters.evals.load(Relaxed) + spell_n + total + ctx_n;
     let cov = json!({
         "evaluations": evals,
         "distinct_nontrivial": counters.errors.load(Relaxed) + (d1.len() as u64),
-        "rule": "expression trees of depth <= 2 (thorough: a pruned depth 3) over all 18 binary value operators, 11 assignment forms, 4 prefix operators, ++/-- prefix and postfix, ?: on boundary operands {0,1,2,3,5,61..65,2^31,2^32+1,2^62,2^63-1,2^63,-1,-(2^63-1), variables a,b (5 environments), unset u}, every tree printed with minimal parentheses and fully parenthesised; exact i128 evaluation with C semantics (value must be exact, overflow / division by zero / MIN%-1 / bad shift counts / shifting a negative or into the sign bit must be errors; short-circuit operands must leave no trace); all pairs of binary operators in both association shapes; $((x)) vs $(($x)) for decimal/octal/hex/signed spellings; every string of length <= 4 over 26 token characters must not panic (length <= 2/3 also through the whole shell). Non-trivial counted = depth-1 trees + evaluations whose exact result is an error.",
+        "rule": "expression trees of depth <= 2 (thorough: a pruned depth 3) over all 18 binary value operators, 11 assignment forms, 4 prefix operators, ++/-- prefix and postfix, ?: on boundary operands {0,1,2,3,5,61..65,2^31,2^32+1,2^62,2^63-1,2^63,-1,-(2^63-1), variables a,b (5 environments), unset u}, every tree printed with minimal parentheses and fully parenthesised; exact i128 evaluation with C semantics (value must be exact, overflow / division by zero / MIN%-1 / bad shift counts / shifting a negative or into the sign bit must be errors; short-circuit operands must leave no trace); all pairs of binary operators in both association shapes; $((x)) vs $(($x)) for decimal/octal/hex/signed spellings; 8 assignment forms x 10 shell contexts (top level, function on a global / own local / caller's local, subshell, loop, nested in an assignment, read-only); every string of length <= 4 over 26 token characters must not panic (length <= 2/3 also through the whole shell). Non-trivial counted = depth-1 trees + evaluations whose exact result is an error.",
         "samples": samples.take(),
         "expression_evaluations": counters.evals.load(Relaxed),
         "skipped_unspecified_sequence_point_or_negative_right_shift": counters.unspec.load(Relaxed),
